@@ -39,10 +39,12 @@ def translate(row, sid, cfg=None):
     for i, b in enumerate(sc['buses']):
         mh = b.get('maxh', 50)
         out.append(f"newBus {i} {int(b.get('parallel', False))} {'-' if mh is None else mh} {int(bool(b.get('wal')))}")
-    for k, h in enumerate(sc['handlers']):
+    def on_lines(k, h):
         kind = {'async': 'a', 'sync': 's'}.get(h['kind']) or f"f{h['target']}"
-        for key in (h.get('keys') or [h['key']]):
-            out.append(f"on {h['bus']} {keyno(sc, key)} {k} {kind}")
+        return [f"on {h['bus']} {keyno(sc, key)} {k} {kind}" for key in (h.get('keys') or [h['key']])]
+    for k, h in enumerate(sc['handlers']):
+        if not h.get('late'):
+            out += on_lines(k, h)
     now = 0
     fwd_inst = {}
     n = len(log)
@@ -72,6 +74,9 @@ def translate(row, sid, cfg=None):
             out.append(f"dispatch {p} {r['b']} {r['e']} {r['res']}")
             if r['res'] != 'ok':
                 out.append(f"oRejected {r['b']} {r['e']} {lst(r['hist'])} {lst(r.get('q', []))}")
+                if r.get('nchild') is not None and p.startswith('I'):
+                    # a refused dispatch leaves the dispatching handler's list of children as it was
+                    out.append(f"oChildCount {p} {r['e']} {r['nchild']} rejected")
             out.append(f"oHist {r['b']} {lst(r['hist'])}")
             if r['res'] == 'ok' and 'q' in r:
                 out.append(f"oAccepted {r['b']} {r['e']} {lst(r['q'])}")
@@ -145,6 +150,10 @@ def translate(row, sid, cfg=None):
             out.append(f"oAccessorRaise {r['e']} {1 if r['bad'] else 0} {r['bad'].replace(' ', '_') or '-'}")
         elif k == 'accessors':
             out.append(f"oAccessors {r['e']} {int(bool(r['changed']))}")
+        elif k == 'on':
+            out += on_lines(r['h'], sc['handlers'][r['h']])
+        elif k == 'pollYield':
+            out.append(f"pollYield {r['i']} {r['n']}")
         elif k == 'awaitBegin':
             out.append(f"awaitBegin {r['i']} {r['e']}")
         elif k == 'awaitEnd':
